@@ -5,6 +5,7 @@ package harness
 import (
 	"bytes"
 	"fmt"
+	"go.dedis.ch/kyber/v4/pairing"
 	"math/big"
 	"testing"
 
@@ -48,6 +49,18 @@ func c06Case(t *rapid.T, ev *evProp, si *SuiteInfo) {
 	eBB := s.Pair(g1.G.Point().Base(), g2.G.Point().Base())
 	if eBB.Equal(OT) {
 		violationOrKnown(t, ev, fmt.Sprintf("C06/%s/nondegenerate", si.Name), "e(B1,B2) is the identity of GT")
+	}
+	// the result of a pairing belongs to the caller: updating e(O,Q) / e(P,O) in place must not change
+	// what later identity pairings or GT.Null() return (an identity handed out by reference would)
+	for _, acc := range []kyber.Point{s.Pair(g1.G.Point().Null(), Q.P), s.Pair(P.P, g2.G.Point().Null()), gt.G.Point().Null()} {
+		acc.Add(acc, ePQ)
+		acc.Add(acc, eBBsnap(s, g1, g2))
+	}
+	eq("e(O,Q)=O_T after in-place use of an earlier result", s.Pair(g1.G.Point().Null(), Q.P), gt.G.Point().Null())
+	for _, gx := range []*GroupInfo{g1, g2, gt} {
+		if why := constantsIntact(gx); why != "" {
+			violationOrKnown(t, ev, fmt.Sprintf("C06/%s/constant-corrupted", si.Name), "%s: %s\n%s", gx.Name, why, ctx)
+		}
 	}
 	if gt.HasBase {
 		// GT.Base() is the pairing of the generators where it exists - on every call, also after a
@@ -122,4 +135,9 @@ func TestC06_Pairing(t *testing.T) {
 			rcheck(t, 480, 14400, func(t *rapid.T) { c06Case(t, ev, si) })
 		})
 	}
+}
+
+// eBBsnap: e(B1,B2) computed afresh (a non-identity GT element to add in place).
+func eBBsnap(s pairing.Suite, g1, g2 *GroupInfo) kyber.Point {
+	return s.Pair(g1.G.Point().Base(), g2.G.Point().Base())
 }
